@@ -1,5 +1,3 @@
-//go:build wip_c12
-
 package props
 
 import (
@@ -625,21 +623,21 @@ func c12CheckUnmarshal(c *kit.Ctx, r *kit.Rule, f *kit.Func, call *ast.CallExpr)
 // c12NilSafeLib tables library callees that accept a nil message pointer in
 // the given position (-1 = receiver).
 var c12NilSafeLib = map[string]int{
-	"github.com/golang/protobuf/ptypes.Timestamp":                                      0,
-	"google.golang.org/protobuf/types/known/timestamppb.(*Timestamp).AsTime":           -1,
-	"google.golang.org/protobuf/types/known/timestamppb.(*Timestamp).CheckValid":       -1,
-	"google.golang.org/protobuf/types/known/timestamppb.(*Timestamp).IsValid":          -1,
-	"google.golang.org/protobuf/types/known/timestamppb.(*Timestamp).GetSeconds":       -1,
-	"google.golang.org/protobuf/types/known/timestamppb.(*Timestamp).GetNanos":         -1,
-	"github.com/golang/protobuf/ptypes.TimestampString":                                0,
-	"google.golang.org/protobuf/proto.Marshal":                                         0,
-	"google.golang.org/protobuf/proto.Size":                                            0,
-	"google.golang.org/protobuf/proto.Clone":                                           0,
-	"google.golang.org/protobuf/proto.Equal":                                           0,
-	"google.golang.org/protobuf/encoding/protojson.Marshal":                            0,
-	"google.golang.org/protobuf/encoding/protojson.Format":                             0,
-	"google.golang.org/protobuf/types/known/timestamppb.(*Timestamp).String":           -1,
-	"google.golang.org/protobuf/types/known/timestamppb.(*Timestamp).ProtoReflect":     -1,
+	"github.com/golang/protobuf/ptypes.Timestamp":                                  0,
+	"google.golang.org/protobuf/types/known/timestamppb.(*Timestamp).AsTime":       -1,
+	"google.golang.org/protobuf/types/known/timestamppb.(*Timestamp).CheckValid":   -1,
+	"google.golang.org/protobuf/types/known/timestamppb.(*Timestamp).IsValid":      -1,
+	"google.golang.org/protobuf/types/known/timestamppb.(*Timestamp).GetSeconds":   -1,
+	"google.golang.org/protobuf/types/known/timestamppb.(*Timestamp).GetNanos":     -1,
+	"github.com/golang/protobuf/ptypes.TimestampString":                            0,
+	"google.golang.org/protobuf/proto.Marshal":                                     0,
+	"google.golang.org/protobuf/proto.Size":                                        0,
+	"google.golang.org/protobuf/proto.Clone":                                       0,
+	"google.golang.org/protobuf/proto.Equal":                                       0,
+	"google.golang.org/protobuf/encoding/protojson.Marshal":                        0,
+	"google.golang.org/protobuf/encoding/protojson.Format":                         0,
+	"google.golang.org/protobuf/types/known/timestamppb.(*Timestamp).String":       -1,
+	"google.golang.org/protobuf/types/known/timestamppb.(*Timestamp).ProtoReflect": -1,
 }
 
 type c12NilFinding struct {
@@ -852,8 +850,8 @@ func (nc *c12NilCtx) nilSafe(f *kit.Func, match func(ast.Expr) bool, base types.
 type c12NilSite struct {
 	f     *kit.Func
 	p     types.Object
-	fld   *types.Var
-	first *ast.SelectorExpr
+	fld   types.Object // field, or niladic accessor method
+	first ast.Expr
 }
 
 func c12NilRule(c *kit.Ctx, r *kit.Rule) {
@@ -904,40 +902,80 @@ func c12NilRule(c *kit.Ctx, r *kit.Rule) {
 			if len(decoded) == 0 {
 				continue
 			}
-			// reads P.F of a pointer-to-message field
+			// reads P.F of a pointer-to-message field, or P.GetF() through a
+			// niladic method of the message type that returns such a pointer
 			var sites []*c12NilSite
 			idx := map[string]*c12NilSite{}
+			isMsgPtr := func(t types.Type) bool {
+				_, isPtr := t.Underlying().(*types.Pointer)
+				return isPtr && kit.NamedStructOf(t) != nil
+			}
+			readOf := func(e ast.Expr) (types.Object, types.Object) {
+				e = ast.Unparen(e)
+				var sel *ast.SelectorExpr
+				isCall := false
+				switch y := e.(type) {
+				case *ast.SelectorExpr:
+					sel = y
+				case *ast.CallExpr:
+					if len(y.Args) != 0 {
+						return nil, nil
+					}
+					sel, _ = ast.Unparen(y.Fun).(*ast.SelectorExpr)
+					isCall = true
+				}
+				if sel == nil {
+					return nil, nil
+				}
+				if _, isIdent := ast.Unparen(sel.X).(*ast.Ident); !isIdent {
+					return nil, nil
+				}
+				p := kit.ObjOf(info, sel.X)
+				s2, ok := info.Selections[sel]
+				if !ok || p == nil {
+					return nil, nil
+				}
+				switch {
+				case !isCall && s2.Kind() == types.FieldVal:
+					if isMsgPtr(s2.Obj().Type()) {
+						return p, s2.Obj()
+					}
+				case isCall && s2.Kind() == types.MethodVal:
+					fn, _ := s2.Obj().(*types.Func)
+					if fn == nil || fn.Pkg() == nil || fn.Pkg().Path() != c12PbPkg {
+						return nil, nil
+					}
+					sg := fn.Type().(*types.Signature)
+					if sg.Results().Len() == 1 && isMsgPtr(sg.Results().At(0).Type()) {
+						return p, fn
+					}
+				}
+				return nil, nil
+			}
 			ast.Inspect(f.Body, func(x ast.Node) bool {
 				if _, ok := x.(*ast.FuncLit); ok {
 					return false
 				}
-				sel, ok := x.(*ast.SelectorExpr)
+				e, ok := x.(ast.Expr)
 				if !ok {
 					return true
 				}
-				p := kit.ObjOf(info, sel.X)
-				if _, isIdent := ast.Unparen(sel.X).(*ast.Ident); !isIdent || !decoded[p] {
+				p, member := readOf(e)
+				if p == nil || !decoded[p] {
 					return true
 				}
-				s2, ok := info.Selections[sel]
-				if !ok || s2.Kind() != types.FieldVal {
-					return true
-				}
-				fld := s2.Obj().(*types.Var)
-				if _, isPtr := fld.Type().Underlying().(*types.Pointer); !isPtr || kit.NamedStructOf(fld.Type()) == nil {
-					return true
-				}
+				// a field selector that is the Fun of a getter call is visited as part of the call
 				// writes are not reads
-				if as, ok := c.P.Parent(f.File, sel).(*ast.AssignStmt); ok {
+				if as, ok := c.P.Parent(f.File, e).(*ast.AssignStmt); ok {
 					for _, l := range as.Lhs {
-						if l == ast.Expr(sel) {
+						if l == e {
 							return true
 						}
 					}
 				}
-				key := kit.VarID(p) + "." + fld.Name()
+				key := kit.VarID(p) + "." + member.Name()
 				if idx[key] == nil {
-					idx[key] = &c12NilSite{f: f, p: p, fld: fld, first: sel}
+					idx[key] = &c12NilSite{f: f, p: p, fld: member, first: e}
 					sites = append(sites, idx[key])
 				}
 				return true
@@ -958,7 +996,7 @@ func c12NilRule(c *kit.Ctx, r *kit.Rule) {
 						return true
 					}
 					for i, rr := range as.Rhs {
-						if sel, ok := ast.Unparen(rr).(*ast.SelectorExpr); ok && kit.ObjOf(info, sel.X) == s.p && kit.ObjOf(info, sel) == s.fld {
+						if p, member := readOf(rr); p == s.p && member == s.fld {
 							if v := kit.ObjOf(info, as.Lhs[i]); v != nil && c12SingleDef(f, v) != nil {
 								alias[v] = true
 							}
@@ -971,14 +1009,8 @@ func c12NilRule(c *kit.Ctx, r *kit.Rule) {
 					if id, ok := e.(*ast.Ident); ok {
 						return alias[kit.ObjOf(info, id)]
 					}
-					sel, ok := e.(*ast.SelectorExpr)
-					if !ok {
-						return false
-					}
-					if _, isIdent := ast.Unparen(sel.X).(*ast.Ident); !isIdent {
-						return false
-					}
-					return kit.ObjOf(info, sel.X) == s.p && kit.ObjOf(info, sel) == s.fld
+					p, member := readOf(e)
+					return p != nil && p == s.p && member == s.fld
 				}
 				fd := nc.nilSafe(f, match, s.p, 0)
 				switch {
